@@ -62,6 +62,11 @@ pub fn start() {
     ON.with(|o| o.set(true));
 }
 
+/// The counters so far (peak live bytes, largest single request) without stopping.
+pub fn peek() -> (u64, u64) {
+    (PEAK.with(|p| p.get()).max(0) as u64, MAXREQ.with(|m| m.get()))
+}
+
 /// Stop counting; returns (peak live bytes requested since `start`, largest single request).
 pub fn stop() -> (u64, u64) {
     ON.with(|o| o.set(false));
